@@ -98,7 +98,13 @@ Fixpoint count_call (reg : Z -> bool) (evs : list pev) (f : Z) : Z :=
   end.
 
 (* ---- effects, statements, interpreter --------------------------------------------- *)
-Inductive outcome := ONormal | ORaised (k : kind).
+Inductive outcome := ONormal | ORaised (k : kind) | OIOError.
+
+(* what sys.stdout is when the program has ended: an ordinary stream, None
+   (print() is then silent, .flush() raises AttributeError), or a stream whose
+   write raises (a closed file, a file opened for reading, ...) *)
+Inductive ostate := OutOk | OutNone | OutBroken.
+Definition ostate_of (c : Z) : ostate := match c with 0 => OutOk | 1 => OutNone | _ => OutBroken end.
 
 Inductive eff :=
 | FInstall | FUninstall | FEnable | FDisable
@@ -109,12 +115,16 @@ Inductive eff :=
 | FDump (outfile : string) (s : pst)        (* prof.dump_stats(outfile): a snapshot of the state *)
 | FWrote (outfile : string)
 | FInspect
+| FIOFails                                  (* a print / flush on the program's stdout raises *)
+| FShowFails                                (* GlobalProfiler.show raises in its first step *)
 | FShow (outs : list (Z * option string)) (s : pst).   (* GlobalProfiler.show at interpreter exit *)
 
 Inductive stmt :=
 | SSkip
 | SEff (e : eff)
 | SDump (outfile : string)
+| SPrint (e : eff)        (* print(...) to sys.stdout *)
+| SFlush                  (* sys.stdout.flush() *)
 | SProgram
 | SSeq (a b : stmt)
 | STry (body : stmt) (catch : kind -> bool) (handler : stmt)
@@ -124,6 +134,7 @@ Section Exec.
   Variable stream : list pev.     (* the events the program executes before it ends *)
   Variable kd : kind.             (* how it ends *)
   Variable reg : Z -> bool.
+  Variable out : ostate.          (* sys.stdout as the program leaves it *)
 
   Definition raise_eff : list eff := match kd with KReturn => [] | k => [FRaise k] end.
   Definition program_outcome : outcome := match kd with KReturn => ONormal | k => ORaised k end.
@@ -133,12 +144,21 @@ Section Exec.
     | SSkip => ([], ONormal, st)
     | SEff e => ([e], ONormal, st)
     | SDump o => ([FDump o st], ONormal, st)
+    | SPrint e => match out with
+                  | OutOk => ([e], ONormal, st)
+                  | OutNone => ([], ONormal, st)
+                  | OutBroken => ([FIOFails], OIOError, st)
+                  end
+    | SFlush => match out with
+                | OutOk => ([], ONormal, st)
+                | _ => ([FIOFails], OIOError, st)
+                end
     | SProgram => (map FProg stream ++ raise_eff, program_outcome, prof_run reg st stream)
     | SSeq a b =>
         let '(t1, o1, s1) := exec a st in
         match o1 with
         | ONormal => let '(t2, o2, s2) := exec b s1 in (t1 ++ t2, o2, s2)
-        | ORaised _ => (t1, o1, s1)
+        | _ => (t1, o1, s1)
         end
     | STry body catch h =>
         let '(t1, o1, s1) := exec body st in
@@ -146,12 +166,12 @@ Section Exec.
         | ORaised k => if catch k
                        then let '(t2, o2, s2) := exec h s1 in (t1 ++ FCaught k :: t2, o2, s2)
                        else (t1, o1, s1)
-        | ONormal => (t1, o1, s1)
+        | _ => (t1, o1, s1)
         end
     | SFinally body fin =>
         let '(t1, o1, s1) := exec body st in
         let '(t2, o2, s2) := exec fin s1 in
-        (t1 ++ t2, match o2 with ONormal => o1 | ORaised _ => o2 end, s2)
+        (t1 ++ t2, match o2 with ONormal => o1 | _ => o2 end, s2)
     end.
 End Exec.
 
@@ -172,10 +192,23 @@ Definition kern_main (ctx timed : bool) (outfile : string) : stmt :=
                 absorbed SSkip)
           (SSeq (if timed then SEff FTimerStop else SSkip)
                 (SSeq (SDump outfile)
-                      (SSeq (SEff (FWrote outfile)) (SSeq (SEff FInspect) (SEff FUninstall)))))).
+                      (SSeq (SPrint (FWrote outfile)) (SSeq (SPrint FInspect) (SEff FUninstall)))))).
 
-Definition kern_run (stream : list pev) (kd : kind) (reg : Z -> bool) (ctx timed : bool) (outfile : string) :=
-  exec stream kd reg (kern_main ctx timed outfile) pst0.
+(* a variant that is NOT the code: the finally block starts by flushing the
+   program's stdout (used to state what the order of the real block buys) *)
+Definition kern_main_flush_first (ctx timed : bool) (outfile : string) : stmt :=
+  SSeq (SEff FInstall)
+       (SFinally
+          (STry (if ctx then SFinally (SSeq (SEff FEnable) SProgram) (SEff FDisable) else SProgram)
+                absorbed SSkip)
+          (SSeq SFlush
+          (SSeq (if timed then SEff FTimerStop else SSkip)
+                (SSeq (SDump outfile)
+                      (SSeq (SPrint (FWrote outfile)) (SSeq (SPrint FInspect) (SEff FUninstall))))))).
+
+Definition kern_run (stream : list pev) (kd : kind) (reg : Z -> bool) (out : ostate)
+           (ctx timed : bool) (outfile : string) :=
+  exec stream kd reg out (kern_main ctx timed outfile) pst0.
 
 (* exit status of the kernprof process.  A CPython artifact is part of it: runctx
    runs the program through exec() of a STRING, and the interpreter marks a
@@ -183,10 +216,8 @@ Definition kern_run (stream : list pev) (kd : kind) (reg : Z -> bool) (ctx timed
    absorbs it and finishes normally (results written, interpreter finalised), the
    process ends by re-raising SIGINT on itself (status -2). *)
 Definition kern_exit (ctx : bool) (kd : kind) (o : outcome) : Z :=
-  match o with
-  | ORaised _ => 1
-  | ONormal => if ctx && (kind_code kd =? 2) then -2 else 0
-  end.
+  if ctx && (kind_code kd =? 2) then -2
+  else match o with ONormal => 0 | _ => 1 end.
 
 (* observers of a trace *)
 Definition is_dump (e : eff) : bool := match e with FDump _ _ => true | _ => false end.
@@ -211,11 +242,28 @@ Definition program_events (tr : list eff) : list pev :=
 (* ---- the explicit mode: program, then the interpreter's exit hooks --------------- *)
 (* `hooks` is what GlobalProfiler's atexit registrations produce (Explicit engine:
    at_exit of the state reached by the decorations), each an emitted-outputs list *)
-Definition explicit_run (stream : list pev) (kd : kind) (reg : Z -> bool)
+(* show() first prints the report to sys.stdout when that output (code 0) is
+   switched on, and only then writes the files: with a stdout that cannot be written
+   to it raises at once and nothing is written *)
+Definition wants_stdout (outs : list (Z * option string)) : bool := existsb (fun x => fst x =? 0) outs.
+Definition show_eff (out : ostate) (s : pst) (outs : list (Z * option string)) : eff :=
+  match out with
+  | OutOk => FShow outs s
+  | _ => if wants_stdout outs then FShowFails else FShow outs s
+  end.
+Definition explicit_run (stream : list pev) (kd : kind) (reg : Z -> bool) (out : ostate)
            (hooks : list (list (Z * option string))) : list eff * outcome * pst :=
-  let '(t, o, s) := exec stream kd reg SProgram pst0 in
-  (t ++ map (fun outs => FShow outs s) hooks, o, s).
+  let '(t, o, s) := exec stream kd reg out SProgram pst0 in
+  (t ++ map (show_eff out s) hooks, o, s).
 Definition is_show (e : eff) : bool := match e with FShow _ _ => true | _ => false end.
+(* nothing that can raise on the program's stdout precedes the dump *)
+Fixpoint no_failure_before_dump (tr : list eff) : bool :=
+  match tr with
+  | [] => true
+  | FDump _ _ :: _ => true
+  | FIOFails :: _ => false
+  | _ :: t => no_failure_before_dump t
+  end.
 
 (* ---- executable comparison for the case shards ------------------------------------ *)
 Definition zz_eqb (a b : Z * Z) : bool := (fst a =? fst b) && (snd a =? snd b).
@@ -261,12 +309,12 @@ Definition prefix_unwind_ok (trig : Z) (full ex : list pev) (k : kind) (m : Z) :
    interrupted, ex = the oracle's stream of the interrupted run, m = the length of
    their common prefix after strip_lines (m < 0: the program has finally blocks, whose lines run during
    the unwinding, so only well-nestedness and closedness are checked); cprofile selects which counter the written file holds. *)
-Definition kern_case_ok (trig : Z) (full ex : list pev) (m : Z) (kd : Z) (regl : list Z) (ctx cprofile : bool)
+Definition kern_case_ok (trig : Z) (full ex : list pev) (m : Z) (kd : Z) (outc : Z) (regl : list Z) (ctx cprofile : bool)
            (impl_hits : list (Z * Z * Z)) (impl_calls : list (Z * Z)) (impl_rc : Z) (impl_dumps : Z)
   : bool * bool * bool :=
   let k := match kd with 0 => KReturn | 1 => KSysExit | 2 => KKbdInt | _ => KExc end in
   let reg := reg_of regl in
-  let '(tr, oc, _) := kern_run ex k reg ctx false "out" in
+  let '(tr, oc, _) := kern_run ex k reg (ostate_of outc) ctx false "out" in
   let snap := match dumped_state tr with Some (_, s) => s | None => pst0 end in
   ((* model = implementation *)
    (if cprofile then calls_agree (p_calls snap) ex impl_calls else hits_agree (p_hits snap) ex impl_hits)
@@ -278,11 +326,12 @@ Definition kern_case_ok (trig : Z) (full ex : list pev) (m : Z) (kd : Z) (regl :
    (if cprofile then calls_are_counts reg ex impl_calls else hits_are_counts reg ex impl_hits)
    && (impl_dumps =? 1)).
 
-Definition explicit_case_ok (trig : Z) (full ex : list pev) (m : Z) (kd : Z) (regl : list Z)
+Definition explicit_case_ok (trig : Z) (full ex : list pev) (m : Z) (kd : Z) (outc : Z) (regl : list Z)
            (impl_hits : list (Z * Z * Z)) (impl_shows : Z) : bool * bool * bool :=
   let k := match kd with 0 => KReturn | 1 => KSysExit | 2 => KKbdInt | _ => KExc end in
   let reg := reg_of regl in
-  let '(tr, _, s) := explicit_run ex k reg [[]] in
-  (hits_agree (p_hits s) ex impl_hits && (count_eff is_show tr =? impl_shows),
+  let '(tr, _, s) := explicit_run ex k reg (ostate_of outc) [[(0, None); (3, Some "profile_output.lprof")]] in
+  ((if count_eff is_show tr =? 0 then list_empty impl_hits else hits_agree (p_hits s) ex impl_hits)
+   && (count_eff is_show tr =? impl_shows),
    prefix_unwind_ok trig full ex k m,
    hits_are_counts reg ex impl_hits && (impl_shows =? 1)).
